@@ -5,7 +5,7 @@ use rand::{rngs::SmallRng, seq::SliceRandom, Rng, SeedableRng};
 use serde_json::{json, Value};
 use std::io::Write;
 
-pub const CLASSES: [&str; 10] = ["empty_or_tiny", "all_equal", "random", "text", "skewed", "skewed_match", "periodic", "mixed", "runs", "skewed_unique"];
+pub const CLASSES: [&str; 11] = ["empty_or_tiny", "all_equal", "random", "text", "skewed", "skewed_match", "periodic", "mixed", "runs", "skewed_unique", "base64"];
 
 pub fn gen_input(class: &str, len: usize, rng: &mut SmallRng) -> Vec<u8> {
     match class {
@@ -21,6 +21,11 @@ pub fn gen_input(class: &str, len: usize, rng: &mut SmallRng) -> Vec<u8> {
             }
             v.truncate(len);
             v
+        }
+        "base64" => {
+            // 6 bits of entropy per byte and no structure: large Huffman-coded literal sections (about 3/4 of the block)
+            const A: &[u8; 64] = b"ABCDEFGHIJKLMNOPQRSTUVWXYZabcdefghijklmnopqrstuvwxyz0123456789+/";
+            (0..len).map(|_| A[rng.gen_range(0..64)]).collect()
         }
         "skewed" => {
             // skewed byte distribution without long matches
@@ -191,6 +196,16 @@ pub fn mkcorpus(args: &[String]) {
         match libzstd_compress(&data, level, wlog, cks, cs, ldm, flush, None, false) {
             Ok(f) => add(format!("lib_{i}_{class}_l{level}_w{}_c{}{}_f{flush}", wlog.unwrap_or(0), cks as u8, cs as u8), &f, &data, "libzstd", &mut idx),
             Err(e) => eprintln!("libzstd: {e}"),
+        }
+    }
+    // full blocks of high-entropy text: the largest Huffman-coded literal sections (four streams of 24 KiB and more)
+    for (i, (len, level)) in [(131072usize, 1), (262144, 3), (200_000, 19), (131072, -1)].iter().enumerate() {
+        if quick && i >= 2 {
+            break;
+        }
+        let data = gen_input("base64", *len, &mut rng);
+        if let Ok(f) = libzstd_compress(&data, *level, None, i % 2 == 0, true, false, 0, None, false) {
+            add(format!("lib_b64_{i}_{len}_l{level}"), &f, &data, "libzstd", &mut idx);
         }
     }
     // ruzstd frames
